@@ -398,6 +398,14 @@ class EQLTranslator:
 
     def translate(self) -> None:
         """Translate the EQL query to SQL."""
+        if (
+            isinstance(self.quantifier, An)
+            and self.quantifier._quantification_constraint_ is not None
+        ):
+            # an(..., quantification=...) raises when the number of solutions is out of bounds; a plain SELECT cannot
+            raise UnsupportedQuantifierError(
+                "A constraint on the number of solutions cannot be translated"
+            )
         if not isinstance(self.select_like, Entity):
             raise UnsupportedQueryTypeError(
                 f"Only queries over a single entity can be translated, got {type(self.select_like)}"
